@@ -498,3 +498,8 @@ def main(argv):
     except runner.Infra as e:
         print('INFRASTRUCTURE FAILURE (no verdict):', e)
         return 2
+    except Exception:
+        import traceback
+        print('INFRASTRUCTURE FAILURE (no verdict): the machinery itself raised an exception')
+        traceback.print_exc()
+        return 2
